@@ -35,6 +35,7 @@ func main() {
 	only := flag.Int("only", -1, "run only this idx")
 	journal := flag.String("journal", "", "journal file")
 	procs := flag.Int("procs", 0, "GOMAXPROCS (0 = by seed)")
+	casesFile := flag.String("cases", "", "file with the cases of this batch (one JSON case per line); avoids regenerating the case list")
 	flag.Parse()
 
 	p := fw.Lookup(*prop)
@@ -47,7 +48,26 @@ func main() {
 	if *procs > 0 {
 		runtime.GOMAXPROCS(*procs)
 	}
-	cases := p.Cases(*tier, *seed)
+	var cases []fw.Case
+	if *casesFile != "" {
+		f, err := os.Open(*casesFile)
+		if err != nil {
+			fmt.Fprintln(os.Stderr, err)
+			os.Exit(2)
+		}
+		sc := bufio.NewScanner(f)
+		sc.Buffer(make([]byte, 1<<20), 512<<20)
+		for sc.Scan() {
+			var c fw.Case
+			if err := json.Unmarshal(sc.Bytes(), &c); err == nil {
+				cases = append(cases, c)
+			}
+		}
+		f.Close()
+		*of, *shard = 1, 0
+	} else {
+		cases = p.Cases(*tier, *seed)
+	}
 	jf, err := os.OpenFile(*journal, os.O_CREATE|os.O_WRONLY|os.O_APPEND, 0o644)
 	if err != nil {
 		fmt.Fprintln(os.Stderr, err)
